@@ -139,6 +139,12 @@ def geometry_map(draw, dim, pmax=3, nmax=2, nurbs=None, orient_preserving=True):
         for j in range(dim):
             if j > i:
                 A[i][j] = draw(st.sampled_from([0.0, 0.0, 0.25, -0.5]))
+    # general (not only triangular) matrices: multiply by a unit lower triangular factor; det(A) stays prod(diag) > 0
+    Lf = [[1.0 if i == j else 0.0 for j in range(dim)] for i in range(dim)]
+    for i in range(dim):
+        for j in range(i):
+            Lf[i][j] = draw(st.sampled_from([0.0, 0.0, 0.5, -0.25, 1.0]))
+    A = [[sum(Lf[i][k] * A[k][j] for k in range(dim)) for j in range(dim)] for i in range(dim)]
     if not orient_preserving and draw(st.booleans()):
         A[0] = [-v for v in A[0]]
     b = [draw(st.integers(-4, 4)) / 2.0 for _ in range(dim)]
